@@ -9,6 +9,8 @@ Verdict(e) ==
             CASE c = "FitRecoversExactMap" -> e.resexp > -3
               [] c = "FitNeverIncreasesResidual" -> e.monotone = 0}
     [] e.op = "staged_fit" -> (IF e.seqexp <= -9 THEN {} ELSE {"AccumulatedEqualsSequential"})
+                              \cup (IF e.monotone = 0 THEN {"FitNeverIncreasesResidual"} ELSE {})
+                              \cup (IF e.lastaffine = 1 /\ e.resexp > -3 THEN {"FitRecoversExactMap"} ELSE {})
 Judge(e) == LET f == Verdict(e) IN IF f = {} THEN TRUE ELSE PrintT(<<"BAD", e.tid, l, f>>)
 Next == /\ l <= Len(Lines)
         /\ Judge(Lines[l])
